@@ -128,52 +128,54 @@ def build_tree(tier):
 
 
 # --------------------------------------------------------------------------- configurations
-def root_configs(tree):
-    """name -> dict(settings=..., dirs=[(fs root, module root fs path, module prefix)])"""
-    r = tree["roots"]
-    proj = tree["proj"]
-    apps = tree["apps"]
+DIRS_OPTS = ["unset", "empty", "A_str", "A_B", "A_pathobj", "B_tuple", "A_unnormalised_twice", "B_and_missing", "C_underscore", "D_globmeta"]
+LEGACY_OPTS = ["none", "A_str", "A_tuple_and_B"]
+APPS_OPTS = ["none", "one", "two_nested"]
+APP_DIRS_OPTS = ["default", "custom", "empty"]
+BASE_OPTS = ["str", "Path"]
 
-    def comp(**kw):
-        d = {"autodiscover": False, "app_dirs": []}
-        d.update(kw)
-        return d
 
-    app_c = (os.path.join(apps, "c20app", "components"), os.path.join(apps, "c20app"), "c20app")
-    app_w = (os.path.join(apps, "c20app", "ui", "widgets"), os.path.join(apps, "c20app"), "c20app")
-    app_i = (os.path.join(apps, "c20outer", "inner", "components"), os.path.join(apps, "c20outer", "inner"), "c20outer.inner")
+def config_names():
+    return ["/".join(c) for c in itertools.product(DIRS_OPTS, LEGACY_OPTS, APPS_OPTS, APP_DIRS_OPTS, BASE_OPTS)]
 
-    def pr(k):
-        return (r[k], proj, None)
 
-    cfgs = [
-        ("dirs_str", {"COMPONENTS": comp(dirs=[r["A"]])}, [pr("A")]),
-        ("dirs_two", {"COMPONENTS": comp(dirs=[r["A"], r["B"]])}, [pr("A"), pr("B")]),
-        ("dirs_path_obj", {"COMPONENTS": comp(dirs=[Path(r["A"])]), "BASE_DIR": Path(proj)}, [pr("A")]),
-        ("dirs_tuple", {"COMPONENTS": comp(dirs=[("pfx", r["B"])])}, [pr("B")]),
-        ("dirs_unnormalised", {"COMPONENTS": comp(dirs=[os.path.join(proj, "other", "..", "components") + "/", r["A"]])}, [pr("A")]),
-        ("dirs_missing", {"COMPONENTS": comp(dirs=[r["B"], os.path.join(proj, "does_not_exist")])}, [pr("B")]),
-        ("dirs_default", {"COMPONENTS": comp(), "BASE_DIR": Path(proj)}, [pr("A")]),
-        ("dirs_empty", {"COMPONENTS": comp(dirs=[])}, []),
-        ("legacy_str", {"COMPONENTS": comp(), "STATICFILES_DIRS": [r["A"]]}, [pr("A")]),
-        ("legacy_tuple", {"COMPONENTS": comp(), "STATICFILES_DIRS": [("pfx", r["A"]), r["B"]]}, [pr("A"), pr("B")]),
-        ("legacy_ignored", {"COMPONENTS": comp(dirs=[r["B"]]), "STATICFILES_DIRS": [r["A"]]}, [pr("B")]),
-        ("underscore_root", {"COMPONENTS": comp(dirs=[r["C"]])}, [pr("C")]),
-        ("glob_meta_root", {"COMPONENTS": comp(dirs=[r["D"]])}, [pr("D")]),
-        ("apps_default", {"COMPONENTS": comp(dirs=[], app_dirs=None), "INSTALLED_APPS": ["django_components", "c20app", "c20outer.inner"]},
-         [app_c, app_i, "DJC"]),
-        ("apps_custom", {"COMPONENTS": comp(dirs=[r["A"]], app_dirs=["components", "ui/widgets"]), "INSTALLED_APPS": ["c20app", "django_components"]},
-         [pr("A"), app_c, app_w, "DJC"]),
-        ("apps_other_dir", {"COMPONENTS": comp(dirs=[r["B"]], app_dirs=["ui/widgets"]), "INSTALLED_APPS": ["django_components", "c20outer.inner", "c20app"]},
-         [pr("B"), app_w]),
-    ]
-    out = []
-    for name, st, dirs in cfgs:
-        st.setdefault("BASE_DIR", proj)
-        if st["COMPONENTS"].get("app_dirs", 0) is None:
-            del st["COMPONENTS"]["app_dirs"]
-        out.append((name, st, dirs))
-    return out
+def make_config(tree, name):
+    """-> (override_settings kwargs, expected roots [(fs root, module root dir, module prefix)]) from the documented rules:
+    COMPONENTS.dirs if set (also when empty), else non-empty STATICFILES_DIRS, else BASE_DIR/components; entries may be
+    str / Path / (prefix, path); missing directories are ignored; plus <app>/<app_dir> of every installed app where it exists."""
+    d_opt, l_opt, a_opt, ad_opt, b_opt = name.split("/")
+    r, proj, apps = tree["roots"], tree["proj"], tree["apps"]
+    comp = {"autodiscover": False}
+    st = {"COMPONENTS": comp, "BASE_DIR": Path(proj) if b_opt == "Path" else proj}
+    dirs_val = {
+        "unset": None, "empty": [], "A_str": [r["A"]], "A_B": [r["A"], r["B"]], "A_pathobj": [Path(r["A"])], "B_tuple": [("pfx", r["B"])],
+        "A_unnormalised_twice": [os.path.join(proj, "other", "..", "components") + "/", r["A"]],
+        "B_and_missing": [r["B"], os.path.join(proj, "does_not_exist")], "C_underscore": [r["C"]], "D_globmeta": [r["D"]],
+    }[d_opt]
+    dirs_roots = {"unset": None, "empty": [], "A_str": ["A"], "A_B": ["A", "B"], "A_pathobj": ["A"], "B_tuple": ["B"], "A_unnormalised_twice": ["A"],
+                  "B_and_missing": ["B"], "C_underscore": ["C"], "D_globmeta": ["D"]}[d_opt]
+    if dirs_val is not None:
+        comp["dirs"] = dirs_val
+    legacy_val = {"none": [], "A_str": [r["A"]], "A_tuple_and_B": [("pfx", r["A"]), r["B"]]}[l_opt]
+    legacy_roots = {"none": [], "A_str": ["A"], "A_tuple_and_B": ["A", "B"]}[l_opt]
+    st["STATICFILES_DIRS"] = legacy_val
+    if dirs_roots is None:
+        dirs_roots = legacy_roots if legacy_val else ["A"]  # default: BASE_DIR / "components"
+    roots = [(r[k], proj, None) for k in dirs_roots]
+    installed = {"none": ["django_components"], "one": ["django_components", "c20app"],
+                 "two_nested": ["c20app", "django_components", "c20outer.inner"]}[a_opt]
+    st["INSTALLED_APPS"] = installed
+    app_dirs = {"default": None, "custom": ["components", "ui/widgets"], "empty": []}[ad_opt]
+    if app_dirs is not None:
+        comp["app_dirs"] = app_dirs
+    app_path = {"django_components": os.path.dirname(_djc_components_dir()), "c20app": os.path.join(apps, "c20app"),
+                "c20outer.inner": os.path.join(apps, "c20outer", "inner")}
+    for app in installed:
+        for ad in (app_dirs if app_dirs is not None else ["components"]):
+            cand = os.path.join(app_path[app], *ad.split("/"))
+            if os.path.isdir(cand):
+                roots.append((cand, app_path[app], app))
+    return st, roots
 
 
 # --------------------------------------------------------------------------- reference
@@ -252,7 +254,6 @@ def run_root_config(tree, name, st, dirs, suffixes=SUFFIXES):
     from django_components.util.loader import get_component_files
 
     out = {"calls": 0, "judged": 0, "nontrivial": 0, "dot_checked": 0, "problems": [], "observed": [], "expected": Counter()}
-    dirs = [(_djc_components_dir(), os.path.dirname(_djc_components_dir()), "django_components") if d == "DJC" else d for d in dirs]
     with SysPath(tree["proj"], tree["apps"]), override_settings(**st):
         universe = []  # (abs path, relparts, is_file, fs_root, module_root, prefix)
         for fs_root, module_root, prefix in dirs:
@@ -315,14 +316,35 @@ def run_root_config(tree, name, st, dirs, suffixes=SUFFIXES):
     return out
 
 
-def _a_task(arg):
-    tree, idx = arg
-    name, st, dirs = root_configs(tree)[idx]
-    r = run_root_config(tree, name, st, dirs)
-    r["name"] = name
-    r["idx"] = idx
-    r["observed"] = hash(tuple(r["observed"])) & 0xFFFFFFFFFFFF
-    return r
+def _a_worker(w, W, tree):
+    agg = par.Agg()
+    seen_ids = set()
+    for i, name in enumerate(config_names()):
+        if i % W != w:
+            continue
+        st, dirs = make_config(tree, name)
+        r = run_root_config(tree, name, st, dirs)
+        agg.states += r["judged"]
+        agg.transitions += r["calls"] + r["dot_checked"]
+        agg.validated += r["judged"]
+        agg.nontrivial += r["nontrivial"]
+        agg.extra["dot_checked"] += r["dot_checked"]
+        agg.extra["configs"] += 1
+        agg.expected.update(r["expected"])
+        agg.observe(tuple(r["observed"]))
+        seen = Counter((p[0], p[1]) for p in r["problems"])
+        done = set()
+        for clause, suffix, rel, what in sorted(r["problems"], key=lambda p: (p[0], repr(p[1]), len(p[2]), p[2])):
+            if (clause, suffix) in done:
+                continue
+            done.add((clause, suffix))
+            ident = f"{clause}:suffix={suffix!r}:{rel}"
+            if ident in seen_ids:  # keep the first configuration per identity and worker
+                continue
+            seen_ids.add(ident)
+            agg.fail(ident, f"[{name}] {what} ({seen[(clause, suffix)]} such paths in this configuration)",
+                     {"part": "files", "config": name, "clause": clause, "suffix": suffix})
+    return agg
 
 
 # --------------------------------------------------------------------------- part B
@@ -430,7 +452,7 @@ def _b_task(arg):
                         problems.append(("autodiscover-exec", dot, f"{os.path.relpath(f, top)} executed {n} times as {dot!r} (all executions of it: "
                                          f"{[k for k in ran if k[1] == os.path.realpath(f)]})"))
                 for (n_, f), c in ran.items():
-                    problems.append(("autodiscover-exec-extra", os.path.relpath(f, top), f"{os.path.relpath(f, top)} executed as {n_!r} although it is not a public module"))
+                    problems.append(("autodiscover-exec-extra", os.path.relpath(f, top), f"{os.path.relpath(f, top)} executed under the module name {n_!r}, which is not the import path of a selected public module"))
     finally:
         del builtins._c20_log
     return variant, len(expected), len(forbidden), problems, len(log)
@@ -441,40 +463,37 @@ def run(ctx):
     ev, fnd = ctx.ev, ctx.fnd
     tree = build_tree(ctx.tier)
     try:
-        cfgs = root_configs(tree)
+        names = config_names()
         npaths = sum(len(walk(r)) for r in tree["roots"].values())
-        print(f"C20: {len(cfgs)} directory configurations x {len(SUFFIXES)} suffixes over {npaths} generated paths (+ app dirs)", flush=True)
+        print(f"C20: {len(names)} directory configurations x {len(SUFFIXES)} suffixes over {npaths} generated paths under dirs (+ app dirs)", flush=True)
         ev.rule = (
             "ENUM: a case is one (directory configuration, requested suffix, path of the generated tree) decided by get_component_files on the "
             "real code and by the reference filter of the statement; non-trivial = (configuration, suffix) pairs for which the reference "
             "selects some but not all paths; dotted paths are validated with importlib.util.find_spec"
         )
-        results = par.run_tasks(_a_task, [(tree, i) for i in range(len(cfgs))])
-        judged = calls = nontriv = dots = 0
-        observed = set()
-        expected = Counter()
-        for r in results:
-            judged += r["judged"]
-            calls += r["calls"]
-            nontriv += r["nontrivial"]
-            dots += r["dot_checked"]
-            observed.add(r["observed"])
-            expected.update(r["expected"])
-            seen = Counter((p[0], p[1]) for p in r["problems"])
-            done = set()
-            for clause, suffix, rel, what in sorted(r["problems"], key=lambda p: (p[0], repr(p[1]), len(p[2]), p[2])):
-                if (clause, suffix) in done:
-                    continue
-                done.add((clause, suffix))
-                fnd.report(f"{clause}:suffix={suffix!r}:{rel}", f"[{r['name']}] {what} ({seen[(clause, suffix)]} such paths in this configuration)",
-                           {"part": "files", "config": r["name"], "clause": clause, "suffix": suffix})
+        # determinism self-test (DESIGN 1.3)
+        for probe in (names[0], "A_B/A_str/two_nested/custom/Path"):
+            st, dirs = make_config(tree, probe)
+            o1 = run_root_config(tree, probe, st, dirs)["observed"]
+            o2 = run_root_config(tree, probe, st, dirs)["observed"]
+            if o1 != o2 or not o1:
+                raise par.HarnessError("get_component_files observations are not reproducible within one process")
+        agg = par.run_sharded(_a_worker, tree)
+        if agg.extra["configs"] != len(names):
+            raise par.HarnessError(f"{agg.extra['configs']} configurations run, {len(names)} generated")
+        order = {n: i for i, n in enumerate(names)}
+        fnd.merge_reports(sorted(agg.failures, key=lambda f: (order[f[2]["config"]], f[0])))
+        if agg.failures_dropped:
+            ev.caps_hit.append(f"{agg.failures_dropped} failure reports dropped")
+        dots = agg.extra["dot_checked"]
         ev.add_part(
-            "get_component_files", states=judged, transitions=calls + dots, validated=judged, nontrivial=nontriv,
-            observed_distinct=len(observed), expected=expected,
-            bound={"configurations": [c[0] for c in cfgs], "suffixes": [repr(s) for s in SUFFIXES], "paths_under_dirs": npaths,
+            "get_component_files", states=agg.states, transitions=agg.transitions, validated=agg.validated, nontrivial=agg.nontrivial,
+            observed_distinct=len(agg.observed), expected=agg.expected,
+            bound={"configurations": len(names), "dirs": DIRS_OPTS, "legacy_staticfiles_dirs": LEGACY_OPTS, "apps": APPS_OPTS, "app_dirs": APP_DIRS_OPTS,
+                   "base_dir_type": BASE_OPTS, "suffixes": [repr(x) for x in SUFFIXES], "paths_under_dirs": npaths,
                    "parts": PARTS_THOROUGH if ctx.tier == "thorough" else PARTS_QUICK, "depth": 3 if ctx.tier == "thorough" else 2,
                    "files": FILES, "dot_paths_checked_with_find_spec": dots},
-            samples=[{"config": "dirs_two", "suffix": ".py", "selected": ["components/pkg/a.py -> components.pkg.a"],
+            samples=[{"config": "A_B/none/none/empty/str", "suffix": ".py", "selected": ["components/pkg/a.py -> components.pkg.a"],
                       "filtered": ["components/_priv/a.py", "components/.hid/a.py", "components/d.py/ (directory)"]}],
         )
         bres = par.run_tasks(_b_task, [(tree["top"], v) for v in ("dirs", "apps", "both")])
@@ -505,14 +524,14 @@ def replay(ctx, case):
             for p in problems:
                 print(p)
             return not problems
-        for name, st, dirs in root_configs(tree):
-            if name == case["config"]:
-                r = run_root_config(tree, name, st, dirs)
-                bad = [p for p in r["problems"] if p[0] == case.get("clause", p[0]) and p[1] == case.get("suffix", p[1])]
-                for p in bad[:20]:
-                    print(p)
-                print(f"{len(bad)} failing paths of {r['judged']}")
-                return not bad
+        if case["config"] in config_names():
+            st, dirs = make_config(tree, case["config"])
+            r = run_root_config(tree, case["config"], st, dirs)
+            bad = [p for p in r["problems"] if p[0] == case.get("clause", p[0]) and p[1] == case.get("suffix", p[1])]
+            for p in bad[:20]:
+                print(p)
+            print(f"{len(bad)} failing paths of {r['judged']}")
+            return not bad
         raise ValueError(case)
     finally:
         shutil.rmtree(tree["top"], ignore_errors=True)
